@@ -29,7 +29,7 @@ R = core.Raw
 # shapes named by known_findings/C09.json, in attribution order: a failing value that has several of them is
 # attributed to the first only (the one that already breaks the text at the outermost level), so that a
 # finding stops being reported as soon as the values that have *only* its shape pass
-KF_FEATURES = ("odd_attr", "attrs_only_key", "attr_body_solo_slot", "solo_rec_item", "solo_extant_item")
+KF_FEATURES = ("solo_extant_item",)   # features of OPEN findings only (odd_attr KF3, attrs_only_key KF5, attr_body_solo_slot KF6, solo_rec_item KF4: repaired)
 
 
 def first_feature(feats):
